@@ -786,7 +786,7 @@ def inline_program(draw: Callable) -> tuple[str, str]:
     grouped = hargs != "S"
     tup = "F,V" if grouped else "F"
     if k < 4 and grouped and t.p(25):
-        stms.append(f"foo(X) :- X = {ufn}{{ F,V,{t.one(['team', 'V', '1'])} : hl({use_args}); B,M,K : bonus(M,K,B) }}.")
+        stms.append(f"foo(X) :- X = {ufn}{{ F,V,{t.one(['a', 'V', '1', '1'])} : hl({use_args}); B,M,K : bonus(M,K,B) }}.")
         names.append("into_aggregate_long_tuple")
     elif k < 4:
         sib = t.one(["", "", "; B : tst(B,C)", "; B,C : tst(B,C)", "; F,V : oth(V,F)", "; 1"])
@@ -923,7 +923,14 @@ def duplication_program(draw: Callable) -> tuple[str, str]:
     n = t.i(2, 3)
     for i in range(n):
         ren = renamings[i if t.p(70) else 0]
-        lits = inst(core, ren)
+        mycore = list(core)
+        if t.p(35):  # partial overlap: one literal of the shared set differs in this statement
+            swaps = {"q(X,Y)": ["r(X,Y)", "e2(X,Y)"], "p(X)": ["v(X)", "d1(X)"], "r(Y,Z)": ["q(Y,Z)", "e2(Y,Z)"], "q(Y,X)": ["r(Y,X)"], "r(X,Z)": ["q(X,Z)"], "not s(X)": ["not v(X)"], "q(X,_)": ["r(X,_)"]}
+            cands = [c for c in mycore if c in swaps]
+            if cands:
+                victim = t.one(cands)
+                mycore[mycore.index(victim)] = t.one(swaps[victim])
+        lits = inst(mycore, ren)
         x, y = ren["X"], ren["Y"]
         extra = t.one([[], [f"v({x})"], [f"not v({y})"], [f"{x} > 0"], ["w"], [f"t({x},T)"], [f"t({x},T)", f"E = {x}", f"E = T"], [f"t(T,U)", f"{x} = T", f"U = {x}"], [f"E = {y}", f"v(E)"]])
         body = lits + extra
